@@ -320,6 +320,9 @@ func TestC14FramesPinned(t *testing.T) {
 		{Opts: wopts{BS: 4, Conc: 1, Legacy: true}, Data: gen.Data{Segs: []gen.Seg{{K: "rand", N: 17<<20 + 100, S: 21}}}, Variants: []c14Variant{{Conc: 4}, {Conc: 2, Chunks: []int{5 << 20, 7 << 20}}}},
 		{Opts: wopts{BS: 4, Conc: 1, Legacy: true}, Data: gen.Data{Segs: []gen.Seg{{K: "rand", N: 8<<20 + 8360000, S: 22}, {K: "text", N: 100000, S: 1, P: 4}}}, Variants: []c14Variant{{Conc: 16}}},
 		{Opts: wopts{BS: 7, Conc: 1, BlockSum: true, ContentSum: true}, Data: gen.Data{Segs: []gen.Seg{{K: "rand", N: 9 << 20, S: 23}, {K: "text", N: 5 << 20, S: 2, P: 4}}}, Variants: []c14Variant{{Conc: 4}, {Conc: 2, Chunks: []int{1, 4 << 20, 4<<20 + 1}}}},
+		// long stretches of stored blocks, then compressible ones (a Writer that adapts to "this stream does not compress" must do so at every concurrency level alike)
+		{Opts: wopts{BS: 4, Conc: 1, ContentSum: true}, Data: gen.Data{Segs: []gen.Seg{{K: "rand", N: 21 << 16, S: 24}, {K: "text", N: 11 << 16, S: 3, P: 4}, {K: "rand", N: 40 << 16, S: 25}, {K: "text", N: 7<<16 + 5, S: 4, P: 3}}}, Variants: []c14Variant{{Conc: 2}, {Conc: 4, Chunks: []int{100000}}}},
+		{Opts: wopts{BS: 5, Conc: 1, Level: uint32(lz4.Level1)}, Data: gen.Data{Segs: []gen.Seg{{K: "rand", N: 70 << 18, S: 26}, {K: "text", N: 9 << 18, S: 5, P: 4}}}, Variants: []c14Variant{{Conc: 4}}},
 	} {
 		pinned(t, "C14", "C14/frame", c, runC14Frame)
 		rec.Class("frame/pinned-large")
